@@ -190,6 +190,20 @@ CHECKS = {
         note='Trusted: z3 (linear integer arithmetic with floor division); the stub network (locality of frames is the property\'s own '
              'hypothesis); witness replay on the real process_lines with a recording network.',
         design='4/C07'),
+    'C11': dict(
+        text='Bounded symbolic execution of the real assign_lines_to_regions / mask_textline_by_region and of LayoutExtractor.process_page / '
+             'TextlineExtractorSimple.process_page over an abstract geometry kernel: rectangular regions and 2-point baselines have '
+             'symbolic coordinates; for one focus (line, region) pair at a time the kernel\'s answers are chosen by the solver within '
+             'shapely\'s contract (intersects or not, validity of both polygons, baseline intersection empty / one piece / 2-3 pieces of '
+             'symbolic lengths / other geometry, outline intersection polygon / 2-3 pieces of symbolic areas / other).  On every path: a '
+             'line is placed only if it touches the region and the clipped kinds are line / polygon, it carries the longest baseline '
+             'piece (> 2 px) and the largest outline piece, a baseline wholly inside the region and longer than 2 px is placed unchanged, '
+             'a pair dropped by the bounding-box pre-filter cannot be an inside line, all line ids are distinct; LayoutExtractor: ids '
+             'distinct for all 16 option combinations with a stub detector returning 0..2 lines per orientation.  Bound: 1x1, 2x1, 1x2 '
+             'regions x lines (quick); 2x2, 3x1, 1x3 (thorough).',
+        note='Trusted: z3 (linear real arithmetic); GEOS/shapely itself is outside (only the repo\'s use of its answers is checked); the '
+             'baseline length is a free non-negative real.  Known finding: duplicate ids with multi-orientation on pre-existing regions.',
+        design='4/C11'),
 }
 
 NOT_APPLICABLE = {
